@@ -644,6 +644,9 @@ class ndarray:
                 for p in pos:
                     buf[p] = v
                 return
+            if shape == () and dt.kind != 'O':
+                # NumPy 2: only a 0-d array converts to a scalar; a size-1 array of ndim >= 1 does not
+                raise ValueError('setting an array element with a sequence.')
             cells = _broadcast_flat(value._cells(), value._shape, shape, assign=True)
             if dt.kind != 'O' and value._dtype != dt:
                 cells = [cast_cell(c, dt, assign=True) for c in cells]
